@@ -93,6 +93,9 @@ enum Kind {
     ParenFirst,
     /// `(2 * N C)`
     ParenSecond,
+    /// `(<prefix>N C)` with a prefix of commodity-less operands, e.g. `(1200 + 300 + N C)`, `(3 * 2 * N C)`: the numeric
+    /// part of the amount is the first number that carries the commodity
+    Chain(&'static str),
 }
 impl Kind {
     fn name(self) -> &'static str {
@@ -100,6 +103,7 @@ impl Kind {
             Kind::Plain => "plain",
             Kind::ParenFirst => "paren-first",
             Kind::ParenSecond => "paren-second",
+            Kind::Chain(_) => "paren-chain",
         }
     }
 }
@@ -117,6 +121,7 @@ impl Amt {
             Kind::Plain => a,
             Kind::ParenFirst => format!("({} * 2)", a),
             Kind::ParenSecond => format!("(2 * {})", a),
+            Kind::Chain(prefix) => format!("({}{})", prefix, a),
         }
     }
     fn com_class(&self) -> &'static str {
@@ -296,6 +301,12 @@ fn judge_post(p: &Post, line: &str) -> J {
                     }
                     (p2 + 3, p2 + 3 + numeric_run(&t[p2 + 3..]))
                 }
+                Kind::Chain(prefix) => {
+                    if !t.starts_with('(') || !t[1..].starts_with(prefix) {
+                        return J::DontCare("amount/expression-shape-not-recognised".into());
+                    }
+                    (1 + prefix.len(), 1 + prefix.len() + numeric_run(&t[1 + prefix.len()..]))
+                }
             };
             if nend == nstart {
                 return J::Viol(format!("amount/no-numeric-part/{}", a.kind.name()), format!("posting line {:?}: no number where the amount {:?} should be", line, a.text()));
@@ -350,6 +361,7 @@ fn judge_post(p: &Post, line: &str) -> J {
                         }
                         (p2 + 3, p2 + 3 + numeric_run(&e[p2 + 3..]))
                     }
+                    Kind::Chain(prefix) if e.starts_with('(') && e[1..].starts_with(prefix) => (1 + prefix.len(), 1 + prefix.len() + numeric_run(&e[1 + prefix.len()..])),
                     _ => return J::DontCare(format!("assertion-only/expression-shape-not-recognised/{}", b.kind.name())),
                 };
                 if nend == nstart {
@@ -667,7 +679,20 @@ fn numbers(max_digits: usize, max_scale: usize) -> Vec<String> {
 
 const NUMBER_SHAPES: [&str; 8] = ["5", "-5", "12.50", "-1,234.56", "1234567", "12345678901234", "-12,345,678,901.2345", "0.00"];
 
-const KINDS: [(Kind, &str); 8] = [(Kind::Plain, "USD"), (Kind::Plain, "$"), (Kind::Plain, "円"), (Kind::Plain, ""), (Kind::ParenFirst, "USD"), (Kind::ParenSecond, "USD"), (Kind::ParenFirst, "円"), (Kind::ParenSecond, "$")];
+const KINDS: [(Kind, &str); 12] = [
+    (Kind::Plain, "USD"),
+    (Kind::Plain, "$"),
+    (Kind::Plain, "円"),
+    (Kind::Plain, ""),
+    (Kind::ParenFirst, "USD"),
+    (Kind::ParenSecond, "USD"),
+    (Kind::ParenFirst, "円"),
+    (Kind::ParenSecond, "$"),
+    (Kind::Chain("1200 + 300 + "), "USD"),
+    (Kind::Chain("3 * 2 * "), "USD"),
+    (Kind::Chain("3 * 2 + "), "円"),
+    (Kind::Chain("1 - 2 - 3 - "), "$"),
+];
 
 const LOTS: [&str; 5] = ["", " {1.5 USD}", " {{30 USD}} [2024/01/02] (lot note)", " [2024/01/02]", " (note only)"];
 const COSTS: [&str; 3] = ["", " @ 1.1 EUR", " @@ 1,100 円"];
